@@ -16,7 +16,8 @@ struct Opts
    std::string victimHost, victimId;    // spliced into the clause table as "VH" / "VI"
    bool allowRawRegex;                  // known finding F19: raw regexes reach regcomp unvetted; stacked repetition is exponential
    uint32 * pathsAddressingVictim;      // counted when a generated path names the victim's host or id literally or by wildcard at both levels
-   Opts() : allowRawRegex(false), pathsAddressingVictim(NULL) {}
+   bool aimAtVictim;                    // C06: a third of the paths are built as /<victim host|*>/<victim id|*>/<clauses from the victim's vocabulary> (costs one extra byte per path, so C07 leaves it off)
+   Opts() : allowRawRegex(false), pathsAddressingVictim(NULL), aimAtVictim(false) {}
 };
 
 static const char * const CLAUSES[] = {"a", "b", "c", "*", "a*", "?", "[ab]", "(a|b)", "a,b", "~a", "<0-5>", "I0", "I1", "\\*", "", "..", "o", "0", "1", "2", "*/*", "x\\", "VH", "VI", "VH", "VI", "~zz", "`a.*", "`(a|b)+c"};
@@ -24,13 +25,22 @@ enum {NUM_CLAUSES = 29};
 
 inline String GenPath(vf::BS & bs, const Opts & o)
 {
+   if ((o.aimAtVictim)&&(bs.u8()%3 == 0))
+   {
+      static const char * const VOC[] = {"a", "b", "o", "c", "I0", "I1", "*", "a*", "?", "[ab]", "(a|b)", "a,b,o", "~zz", "<0-5>", "I*", ".."};
+      const uint8_t k = bs.u8(); String r = "/"; r += (k&1) ? "*" : o.victimHost.c_str(); r += '/'; r += (k&2) ? "*" : (k&4) ? (o.victimId+"*").c_str() : o.victimId.c_str();
+      const uint32 n = 1+(k>>3)%3; for (uint32 i=0; i<n; i++) {r += '/'; r += VOC[bs.u8()%16];}
+      if (o.pathsAddressingVictim) (*o.pathsAddressingVictim)++;
+      return r;
+   }
    String r; const bool abs = (bs.u8()%3 == 0); if (abs) r = "/";
    const uint32 n = 1+bs.u8()%4; bool vh = false, vi = false;
    for (uint32 i=0; i<n; i++)
    {
       if (i) r += '/';
       const char * c = CLAUSES[bs.u8()%NUM_CLAUSES];
-      if ((c[0] == '`')&&(o.allowRawRegex == false)) {vf::Excluded("F19", 0); c = "a*";}      // raw-regex clauses only in the simple, non-stacking forms above; kept out entirely unless allowed
+      if ((c[0] == '`')&&(o.allowRawRegex == false)) {vf::Excluded("F19"); c = "a*";}      // raw-regex clauses are kept out entirely while F19 stands
+      else if ((c[0] == '`')&&(c[1] == '(')) c = "`e+++++++++++++++++++++++";                     // (exclusion lifted) stacked repetition: exponential in regcomp
       if (strcmp(c, "VH") == 0) {r += o.victimHost.size() ? o.victimHost.c_str() : "*"; if (i == 0) vh = true;}
       else if (strcmp(c, "VI") == 0) {r += o.victimId.size() ? o.victimId.c_str() : "*"; if (i == 1) vi = true;}
       else {r += c; if ((i == 0)&&(strcmp(c, "*") == 0)) vh = true; if ((i == 1)&&(strcmp(c, "*") == 0)) vi = true;}
